@@ -82,6 +82,11 @@ def load_module(path: str) -> ModuleInfo:
                     funcs[f"{node.name}.{sub.name}"] = sub
         elif isinstance(node, (ast.FunctionDef, ast.AsyncFunctionDef)):
             funcs[node.name] = node
+            # helper functions defined directly inside a module-level function: "outer.inner"
+            # (their free variables must be declared to the verifier, e.g. as opaque names)
+            for sub in node.body:
+                if isinstance(sub, (ast.FunctionDef, ast.AsyncFunctionDef)):
+                    funcs[f"{node.name}.{sub.name}"] = sub
     return ModuleInfo(path, tree, src, consts, const_nodes, classes, funcs, imports)
 
 
